@@ -33,10 +33,18 @@ def main():
     out = ROOT / "seeded" / f"{prop}-{name}"
     wt = Path(f"/tmp/evalwt_{prop}_{name}")
     meta = {"property": prop, "name": name, "ran": []}
+    reuse = "--reuse" in sys.argv and (out / "meta.json").exists()
+    if reuse:
+        old = json.loads((out / "meta.json").read_text())
+        for k in ("patch_applies", "demo_with_patch_exit", "test_suite_with_patch", "demo_without_patch_exit"):
+            meta[k] = old[k]
+        meta["ran"] = [x for x in old.get("ran", []) if not x.startswith("./check")]
     sh(f"git -C /repo worktree remove --force {wt}")
     r = sh(f"git -C /repo worktree add -q {wt} HEAD")
     assert r.returncode == 0, r.stderr
     try:
+        if reuse:
+            raise StopIteration
         env = dict(os.environ, PYTHONPATH=f"{wt}/src")
         r = sh(f"git -C {wt} apply {src}/patch.diff")
         meta["patch_applies"] = r.returncode == 0
@@ -53,6 +61,8 @@ def main():
         sh(f"git -C {wt} checkout -- .")
         r = sh(f"PYTHONPATH={wt}/src /venv/bin/python {src}/demo.py", cwd=wt)
         meta["demo_without_patch_exit"] = r.returncode
+    except StopIteration:
+        pass
     finally:
         sh(f"git -C /repo worktree remove --force {wt}")
         shutil.rmtree(wt, ignore_errors=True)
